@@ -226,10 +226,10 @@ func (d *devLRU) clear() []pair {
 	return ev
 }
 
-func (r *refLRU) length() int    { return len(r.list) }
-func (r *refLRU) total() int64   { return r.size }
-func (d *devLRU) length() int    { return len(d.h.Data) }
-func (d *devLRU) total() int64   { return d.size }
+func (r *refLRU) length() int  { return len(r.list) }
+func (r *refLRU) total() int64 { return r.size }
+func (d *devLRU) length() int  { return len(d.h.Data) }
+func (d *devLRU) total() int64 { return d.size }
 
 // ---------------------------------------------------------------------------
 
@@ -287,7 +287,7 @@ func runC08(c CacheCase, o *vk.Obs) string {
 	cc := cache.New(limit, cfg)
 	ref := &refLRU{limit: limit, unit: unit}
 	dev := newDevLRU(limit, unit)
-	devAlive := true  // dev still coincides with the real cache on everything observed
+	devAlive := true   // dev still coincides with the real cache on everything observed
 	following := false // true once a divergence from pure LRU was explained by dev
 	exposed := false
 	knownHits := 0
@@ -301,7 +301,7 @@ func runC08(c CacheCase, o *vk.Obs) string {
 	ops := append(append([]COp(nil), c.Ops...), COp{Kind: "clear"})
 	for i, op := range ops {
 		op.K = op.K % (c.Limit + 4) // key space scales with the limit so that evictions happen
-		if op.Kind == "putNew" { // a key that is not present (if any): forces an insertion
+		if op.Kind == "putNew" {    // a key that is not present (if any): forces an insertion
 			for j := 0; j < c.Limit+4; j++ {
 				if k := (op.K + j) % (c.Limit + 4); !cc.Has(k) {
 					op.K = k
